@@ -78,6 +78,12 @@ def gen_components(rng, order, mode, hom, cplx):
 
 def call_scheme(name, hom, S, L, I, M, x0, h, n, **kw):
     f = getattr(ode, name + '_splitting')
+    flat2d = kw.pop('flat2d', False)
+    if flat2d and all(l.shape[2] == 1 for l in L) and all(m is None or m.shape[0] == 1 for m in M):
+        # rank-one interactions handed over as plain matrices (the documented 2-D form of L and M)
+        if hom:
+            return f(S[0], L[0][:, :, 0].copy(), I[0], (M[1] if len(M) > 1 else M[0])[0].copy(), x0, h, n, **kw)
+        return f([s.copy() for s in S], [l[:, :, 0].copy() for l in L], [i.copy() for i in I], [m[0].copy() for m in M], x0, h, n, **kw)
     if hom:
         return f(S[0], L[0].copy(), I[0], M[1].copy() if len(M) > 1 else M[0].copy(), x0, h, n, **kw)
     return f([s.copy() for s in S], [l.copy() for l in L], [i.copy() for i in I], [m.copy() for m in M], x0, h, n, **kw)
@@ -207,6 +213,18 @@ def side_case(seed, tr):
                     return 'normalize=%d: state %d has %s-norm %.10g, not 1' % (nrm, k, nrm, got), desc
                 if not close(v, ref, 1e-8):
                     return 'normalize=%d: state %d is not the normalised dense product' % (nrm, k), desc
+            # the returned states have unit norm also when the rank truncation of the step is active (only the norm is asserted)
+            if order >= 3:
+                mr = rng.randint(1, 2)
+                desc['truncated_max_rank'] = mr
+                x1 = gen_tt(rng, dims, [1] * order, max_ranks(dims), cplx, 'float')
+                x1 = TT([np.abs(c) + 0.5 for c in x1.cores])
+                sol = call_scheme(scheme, hom, S, L, I, M, x1, 0.05, 2, threshold=0, max_rank=mr, normalize=nrm)
+                for k in (1, 2):
+                    v = dense(sol[k].cores).reshape(N)
+                    got = float(np.real(np.sum(v))) if nrm == 1 else float(np.linalg.norm(v))
+                    if abs(got - 1.0) > 1e-8:
+                        return 'normalize=%d with max_rank=%d: state %d has %s-norm %.10g, not 1' % (nrm, mr, k, nrm, got), desc
             return None, desc
         if clause == 'norm':
             # skew-Hermitian generator: S_i := i * Hermitian, L (x) M := i * (Hermitian (x) Hermitian)
@@ -226,9 +244,11 @@ def side_case(seed, tr):
             return None, desc
         gens = local_generators(dims, S, L, I, M)
         if clause == 'step':
+            flat2d = rng.random() < 0.5
+            desc['flat2d'] = flat2d
             h = rng.uniform(0.05, 0.3)
             nsteps = rng.randint(1, 2)
-            sol = call_scheme(scheme, hom, S, L, I, M, x0, h, nsteps, threshold=1e-14, max_rank=50, normalize=0)
+            sol = call_scheme(scheme, hom, S, L, I, M, x0, h, nsteps, threshold=1e-14, max_rank=50, normalize=0, flat2d=flat2d)
             P = dense_step(scheme, tr, dims, gens, h)
             ref = xv.astype(complex)
             if len(sol) != nsteps + 1 or sol[0] is not x0:
